@@ -309,6 +309,15 @@ impl CoreDocument {
       MethodRef::Refer(did) => self.data.verification_method.query_url(did),
     }
   }
+  pub fn resolve_method_ref__canary<'a>(&'a self, method_ref: &'a MethodRef) -> (r: Option<&'a VerificationMethod>)
+    ensures r is Some <==> deref_ref(self, method_ref) is Some, r is Some ==> *r->Some_0 == deref_ref(self, method_ref)->Some_0,
+      false,
+  {
+    match method_ref {
+      MethodRef::Embed(method) => Some(method),
+      MethodRef::Refer(did) => self.data.verification_method.query_url(did),
+    }
+  }
 
   fn resolve_method_inner(&self, query: DIDUrlQuery<'_>) -> (r: Option<&VerificationMethod>)
     ensures ({
@@ -356,6 +365,53 @@ impl CoreDocument {
       None => self.data.verification_method.query(query),
     }
   }
+  fn resolve_method_inner__canary(&self, query: DIDUrlQuery<'_>) -> (r: Option<&VerificationMethod>)
+    ensures ({
+      let q = &query;
+      // fixed collection order; the first relationship entry that matches wins, a reference is followed into verificationMethod;
+      // without any matching relationship entry the general-purpose methods are searched
+      let a = first_ref(self.data.authentication.0@, q); let b = first_ref(self.data.assertion_method.0@, q);
+      let c = first_ref(self.data.key_agreement.0@, q); let d = first_ref(self.data.capability_delegation.0@, q);
+      let e = first_ref(self.data.capability_invocation.0@, q);
+      let expected =
+        if a is Some { deref_ref(self, &self.data.authentication.0@[a->Some_0]) }
+        else if b is Some { deref_ref(self, &self.data.assertion_method.0@[b->Some_0]) }
+        else if c is Some { deref_ref(self, &self.data.key_agreement.0@[c->Some_0]) }
+        else if d is Some { deref_ref(self, &self.data.capability_delegation.0@[d->Some_0]) }
+        else if e is Some { deref_ref(self, &self.data.capability_invocation.0@[e->Some_0]) }
+        else { resolve_scoped(self, q, MethodScope::VerificationMethod) };
+      (r is Some <==> expected is Some) && (r is Some ==> *r->Some_0 == expected->Some_0)
+    }),
+      false,
+  {
+    let mut method: Option<&MethodRef> = None;
+
+    if method.is_none() {
+      method = self.data.authentication.query(query.clone());
+    }
+
+    if method.is_none() {
+      method = self.data.assertion_method.query(query.clone());
+    }
+
+    if method.is_none() {
+      method = self.data.key_agreement.query(query.clone());
+    }
+
+    if method.is_none() {
+      method = self.data.capability_delegation.query(query.clone());
+    }
+
+    if method.is_none() {
+      method = self.data.capability_invocation.query(query.clone());
+    }
+
+    match method {
+      Some(MethodRef::Embed(method)) => Some(method),
+      Some(MethodRef::Refer(did)) => self.data.verification_method.query_string(&did.to_string()),
+      None => self.data.verification_method.query(query),
+    }
+  }
 
   pub fn resolve_method<'me>(
   &'me self,
@@ -366,6 +422,53 @@ impl CoreDocument {
       // with a scope: exactly the model's entry for THAT scope (never another relationship's)
       scope is Some ==> (r is Some <==> resolve_scoped(self, &method_query, scope->Some_0) is Some)
         && (r is Some ==> *r->Some_0 == resolve_scoped(self, &method_query, scope->Some_0)->Some_0),
+  {
+    match scope {
+      Some(scope) => {
+        let resolve_ref_helper = |method_ref: &'me MethodRef| -> (o: Option<&'me VerificationMethod>) ensures o is Some <==> deref_ref(self, method_ref) is Some, o is Some ==> *o->Some_0 == deref_ref(self, method_ref)->Some_0 { self.resolve_method_ref(method_ref) };
+
+        match scope {
+          MethodScope::VerificationMethod => self.data.verification_method.query(method_query),
+          MethodScope::VerificationRelationship(MethodRelationship::Authentication) => self
+            .data
+            .authentication
+            .query(method_query)
+            .and_then(resolve_ref_helper),
+          MethodScope::VerificationRelationship(MethodRelationship::AssertionMethod) => self
+            .data
+            .assertion_method
+            .query(method_query)
+            .and_then(resolve_ref_helper),
+          MethodScope::VerificationRelationship(MethodRelationship::KeyAgreement) => self
+            .data
+            .key_agreement
+            .query(method_query)
+            .and_then(resolve_ref_helper),
+          MethodScope::VerificationRelationship(MethodRelationship::CapabilityDelegation) => self
+            .data
+            .capability_delegation
+            .query(method_query)
+            .and_then(resolve_ref_helper),
+          MethodScope::VerificationRelationship(MethodRelationship::CapabilityInvocation) => self
+            .data
+            .capability_invocation
+            .query(method_query)
+            .and_then(resolve_ref_helper),
+        }
+      }
+      None => self.resolve_method_inner(method_query),
+    }
+  }
+  pub fn resolve_method__canary<'me>(
+  &'me self,
+  method_query: DIDUrlQuery<'_>,
+  scope: Option<MethodScope>,
+  ) -> (r: Option<&'me VerificationMethod>)
+    ensures
+      // with a scope: exactly the model's entry for THAT scope (never another relationship's)
+      scope is Some ==> (r is Some <==> resolve_scoped(self, &method_query, scope->Some_0) is Some)
+        && (r is Some ==> *r->Some_0 == resolve_scoped(self, &method_query, scope->Some_0)->Some_0),
+      false,
   {
     match scope {
       Some(scope) => {
@@ -446,6 +549,47 @@ impl CoreDocument {
       }
     }
   }
+  pub fn attach_method_relationship__canary<'query>(
+  &mut self,
+  method_query: DIDUrlQuery<'query>,
+  relationship: MethodRelationship,
+  ) -> (r: Result<bool>)
+    ensures ({
+      let gp = resolve_scoped(old(self), &method_query, MethodScope::VerificationMethod);
+      // only a general-purpose method can be attached; a refused operation leaves the document unchanged
+      &&& (r is Ok <==> gp is Some)
+      &&& r is Err ==> *final(self) == *old(self)
+      &&& r is Ok ==> {
+            let id = vm_id(&gp->Some_0);
+            &&& same_except_rel(final(self), old(self), relationship)
+            &&& r->Ok_0 == !has_ref_id(rel_set(old(self), relationship), id)
+            &&& rel_set(final(self), relationship) == (if r->Ok_0 { rel_set(old(self), relationship).push(MethodRef::Refer(*id)) } else { rel_set(old(self), relationship) })
+          }
+    }),
+      false,
+  {
+    let method_query: DIDUrlQuery<'query> = method_query;
+
+    match self.resolve_method(method_query.clone(), Some(MethodScope::VerificationMethod)) {
+      None => match self.resolve_method(method_query, None) {
+        Some(_) => Err(Error::InvalidMethodEmbedded),
+        None => Err(Error::MethodNotFound),
+      },
+      Some(method) => {
+        let method_ref = MethodRef::Refer(method.id().clone());
+
+        let was_attached = match relationship {
+          MethodRelationship::Authentication => self.data.authentication.append(method_ref),
+          MethodRelationship::AssertionMethod => self.data.assertion_method.append(method_ref),
+          MethodRelationship::KeyAgreement => self.data.key_agreement.append(method_ref),
+          MethodRelationship::CapabilityDelegation => self.data.capability_delegation.append(method_ref),
+          MethodRelationship::CapabilityInvocation => self.data.capability_invocation.append(method_ref),
+        };
+
+        Ok(was_attached)
+      }
+    }
+  }
 
   pub fn detach_method_relationship<'query>(
   &mut self,
@@ -488,12 +632,63 @@ impl CoreDocument {
       }
     }
   }
+  pub fn detach_method_relationship__canary<'query>(
+  &mut self,
+  method_query: DIDUrlQuery<'query>,
+  relationship: MethodRelationship,
+  ) -> (r: Result<bool>)
+    ensures ({
+      let gp = resolve_scoped(old(self), &method_query, MethodScope::VerificationMethod);
+      &&& (r is Ok <==> gp is Some)
+      &&& r is Err ==> *final(self) == *old(self)
+      &&& r is Ok ==> {
+            let id = vm_id(&gp->Some_0);
+            // only the named relationship's collection can change, and only by losing the entry with that id
+            &&& same_except_rel(final(self), old(self), relationship)
+            &&& r->Ok_0 == has_ref_id(rel_set(old(self), relationship), id)
+            &&& !r->Ok_0 ==> rel_set(final(self), relationship) == rel_set(old(self), relationship)
+            &&& r->Ok_0 ==> exists|idx: int| 0 <= idx < rel_set(old(self), relationship).len() && ref_id(&#[trigger] rel_set(old(self), relationship)[idx]) == id
+                  && rel_set(final(self), relationship) == rel_set(old(self), relationship).remove(idx)
+          }
+    }),
+      false,
+  {
+    let method_query: DIDUrlQuery<'query> = method_query;
+    match self.resolve_method(method_query.clone(), Some(MethodScope::VerificationMethod)) {
+      None => match self.resolve_method(method_query, None) {
+        Some(_) => Err(Error::InvalidMethodEmbedded),
+        None => Err(Error::MethodNotFound),
+      },
+      Some(method) => {
+        let did_url: DIDUrl = method.id().clone();
+
+        let was_detached = match relationship {
+          MethodRelationship::Authentication => self.data.authentication.remove(&did_url),
+          MethodRelationship::AssertionMethod => self.data.assertion_method.remove(&did_url),
+          MethodRelationship::KeyAgreement => self.data.key_agreement.remove(&did_url),
+          MethodRelationship::CapabilityDelegation => self.data.capability_delegation.remove(&did_url),
+          MethodRelationship::CapabilityInvocation => self.data.capability_invocation.remove(&did_url),
+        };
+
+        Ok(was_detached.is_some())
+      }
+    }
+  }
 
   pub fn remove_service(&mut self, id: &DIDUrl) -> (r: Option<Service>)
     ensures
       r is None ==> final(self).data.service.0@ == old(self).data.service.0@,
       final(self).data.verification_method == old(self).data.verification_method
         && forall|rel: MethodRelationship| #[trigger] rel_set(final(self), rel) == rel_set(old(self), rel),
+  {
+    self.data.service.remove(id)
+  }
+  pub fn remove_service__canary(&mut self, id: &DIDUrl) -> (r: Option<Service>)
+    ensures
+      r is None ==> final(self).data.service.0@ == old(self).data.service.0@,
+      final(self).data.verification_method == old(self).data.verification_method
+        && forall|rel: MethodRelationship| #[trigger] rel_set(final(self), rel) == rel_set(old(self), rel),
+      false,
   {
     self.data.service.remove(id)
   }
@@ -527,10 +722,69 @@ impl CoreDocument {
 
     let nonce: Option<&str> = options.nonce.as_deref();
     // Validate the nonce
-    if validation_item.nonce() != nonce {
-      return Err(Error::JwsVerificationError(
-        identity_verification::jose::error::Error::InvalidParam("invalid nonce value"),
-      ));
+    if let Some(jws_nonce) = validation_item.nonce() {
+      if Some(jws_nonce) != nonce {
+        return Err(Error::JwsVerificationError(
+          identity_verification::jose::error::Error::InvalidParam("invalid nonce value"),
+        ));
+      }
+    }
+
+    let method_url_query: DIDUrlQuery<'_> = match &options.method_id {
+      Some(method_id) => method_id.into(),
+      None => validation_item
+        .kid()
+        .ok_or(Error::JwsVerificationError(
+          identity_verification::jose::error::Error::InvalidParam("missing kid value"),
+        ))?
+        .into(),
+    };
+
+    let public_key: &Jwk = self
+      .resolve_method(method_url_query, options.method_scope)
+      .ok_or(Error::MethodNotFound)?
+      .data()
+      .try_public_key_jwk()
+      .map_err(|x_eta| -> (r_eta: Error) ensures r_eta == Error::InvalidKeyMaterial(x_eta) { Error::InvalidKeyMaterial(x_eta) })?;
+
+    validation_item
+      .verify(signature_verifier, public_key)
+      .map_err(|x_eta| -> (r_eta: Error) ensures r_eta == Error::JwsVerificationError(x_eta) { Error::JwsVerificationError(x_eta) })
+  }
+  pub fn verify_jws__canary<'jws, T: JwsVerifier>(
+  &self,
+  jws: &'jws str,
+  detached_payload: Option<&'jws [u8]>,
+  signature_verifier: &T,
+  options: &JwsVerificationOptions,
+  ) -> (r: Result<DecodedJws<'jws>>)
+    ensures
+      r is Ok ==> ({
+        let item = item_of(jws.spec_bytes(), if detached_payload is Some { Some(detached_payload->Some_0@) } else { None });
+        let q = if options.method_id is Some { q_of_url(&options.method_id->Some_0) } else { q_of_str(item_kid(&item)->Some_0) };
+        // matching nonce (absent on both sides counts as matching, absent on one side does not)
+        &&& item_nonce(&item) == opt_str(options.nonce)
+        &&& (options.method_id is None ==> item_kid(&item) is Some)
+        // the key is that of a method of THIS document, chosen by the configured method id or the header kid, within the configured scope
+        &&& options.method_scope is Some ==> {
+              let m = resolve_scoped(self, &q, options.method_scope->Some_0);
+              m is Some && data_jwk_of(&m->Some_0) is Some && verified_under(&item, signature_verifier, &data_jwk_of(&m->Some_0)->Some_0)
+            }
+      }),
+      false,
+  {
+    let validation_item = Decoder::new()
+      .decode_compact_serialization(jws.as_bytes(), detached_payload)
+      .map_err(|x_eta| -> (r_eta: Error) ensures r_eta == Error::JwsVerificationError(x_eta) { Error::JwsVerificationError(x_eta) })?;
+
+    let nonce: Option<&str> = options.nonce.as_deref();
+    // Validate the nonce
+    if let Some(jws_nonce) = validation_item.nonce() {
+      if Some(jws_nonce) != nonce {
+        return Err(Error::JwsVerificationError(
+          identity_verification::jose::error::Error::InvalidParam("invalid nonce value"),
+        ));
+      }
     }
 
     let method_url_query: DIDUrlQuery<'_> = match &options.method_id {
